@@ -183,8 +183,11 @@ def run(ctx):
             r3.violation("%s:interest" % g.qname, "epoll event 0x%x is requested under condition bit %s" % (bad[0][1], bad[0][2]), loc=g.loc(bad[0][0]))
         else:
             r3.ok("%s: EPOLLIN only under RECEIVABLE/ACCEPTABLE, EPOLLOUT only under SENDABLE" % g.qname, "path exploration")
-    if nmask < 2:
+    if nmask < 1:
         raise Broken("C16.R3: %d event-mask builders in the btcp transport (connection and server expected)" % nmask)
+    # (b2) btcp connection in state ready: the update helper folded exactly over every awaited condition - the mask is
+    # EPOLLIN iff RECEIVABLE, EPOLLOUT iff SENDABLE, both when both are awaited, and the bell is off
+    fold_btcp_ready(P, r3, bt)
     # (c) btls ready with nothing awaited: no bell, nothing asked of the sub-socket
     blt = [t for t in tables if t.proto == "btls"][0]
     cu = TP.conn_update_fn(P, blt)
@@ -493,6 +496,10 @@ def run(ctx):
     r10 = ctx.rule("C16.R10", "a control client kept after a step waits for output exactly while a response is pending")
     check_ctl_client_interest(P, r10)
 
+    # ------------------------------------------------------------------ R11
+    r11 = ctx.rule("C16.R11", "a helper whose result was taken (connect tracker, resolver) is destroyed in the same call: its timers and descriptors leave the epoll set")
+    check_helper_retired(P, r11)
+
 
 def check_ctl_client_interest(P, rule):
     """the control clients are registered in the socket's own epoll set: a client registered for EPOLLOUT with nothing to
@@ -557,3 +564,97 @@ def check_ctl_client_interest(P, rule):
             rule.ok("%s: on every path that keeps the client, the registered mask and %s agree" % (f.qname, flag), "path exploration")
     if nfn < 3:
         raise Broken("C16.R10: only %d functions register control clients" % nfn)
+
+
+def check_helper_retired(P, rule):
+    """the connect tracker and the resolver are helper objects with descriptors and timers of their own in the socket's
+    epoll set (the attempt's timerfd armed with tcp.connect_timeout, the resolver's channel descriptors).  When the
+    transport has taken their result, nothing cancels those any more unless the helper is destroyed: an armed timer
+    of a connect that SUCCEEDED expires seconds later and keeps xcm_fd() readable for the rest of the connection's
+    life.  On every path on which the taking call succeeded, the helper's destroy function is called before the
+    function returns."""
+    PAIRS = (("tconnect_get_connected_fd", "tconnect_destroy"), ("xcm_dns_query_result", "xcm_dns_query_destroy"))
+    n = 0
+    for taker, destroyer in PAIRS:
+        for f in P.functions:
+            if not f.file.startswith("libxcm/tp/") or not any(True for _ in f.calls(taker)) or f.name == taker:
+                continue
+            if f.file.endswith(("tconnect.c", "xcm_dns_cares.c")):
+                continue
+            n += 1
+            rule.instance("%s: %s -> %s" % (f.qname, taker, destroyer))
+            bad = []
+
+            class Retired(S.SeqRule):
+                max_depth = 1
+
+                def user0(s2, fn):
+                    return (None, False)        # (the taking call, helper destroyed since)
+
+                def inline(s2, fn, nid, callee):
+                    return False
+
+                def on_call(s2, fn, st, nid, callees, exts):
+                    nm = fn.nodes[nid].get("callee") or ""
+                    if nm == taker:
+                        return (nid, False)
+                    if nm == destroyer:
+                        return (st.user[0], True)
+                    return None
+
+                def on_exit(s2, fn, st, ret_nid, ret_cls, top):
+                    tk, des = st.user
+                    if not top or tk is None or des or bad:
+                        return
+                    cls = [st.get(("call", tk))] + [st.get(k[1]) for k, v in st.vals if isinstance(k, tuple) and k[0] == "src" and v == ("call", tk)]
+                    if any(c in (S.ZERO, S.NONNEG, S.POS) for c in cls):
+                        bad.append(ret_nid)
+            S.run(Retired(P), f)
+            if bad:
+                rule.violation("%s:%s-not-retired" % (f.name, destroyer), "%s can return after %s() succeeded without calling %s(): the helper's timer and descriptors stay in the "
+                               "socket's epoll set, and when the (now pointless) timeout expires xcm_fd() is readable for ever with nothing to do" % (f.name, taker, destroyer),
+                               loc=f.loc(bad[0]) if bad[0] is not None else f.file)
+            else:
+                rule.ok("%s: a successful %s() is followed by %s() on every path" % (f.qname, taker, destroyer), "path exploration")
+    if n < 2:
+        raise Broken("C16.R11: only %d result-taking sites found" % n)
+
+
+def fold_btcp_ready(P, rule, bt):
+    """exact folding of btcp's connection update in state `ready` over the awaited conditions 0..3 (SENDABLE and
+    RECEIVABLE in every combination - the relay awaits both at once, the suite never does)"""
+    cu = TP.conn_update_fn(P, bt)
+    if len(cu) != 1:
+        raise Broken("C16.R3: connection update helper of btcp not found")
+    g = cu[0]
+    en = [e for e in bt.unit.enums if e["name"] == "conn_state"]
+    ready = [c["value"] for c in en[0]["constants"] if c["name"] == "conn_state_ready"] if en else []
+    st = {g.show(n) for n, m in g.nodes.items() if m["k"] == "member" and m.get("field") == "state"}
+    co = {g.show(n) for n, m in g.nodes.items() if m["k"] == "member" and m.get("field") == "condition"}
+    if len(st) != 1 or len(co) != 1 or len(ready) != 1:
+        raise Broken("C16.R3: inputs of %s not identified (state %s, condition %s)" % (g.qname, sorted(st), sorted(co)))
+    rule.instance("%s folded over the awaited conditions in state ready" % g.qname)
+    bad = []
+    for c in range(4):
+        rec = {}
+        it = I.Interp(P, stubs={"xpoll_bell_reg_mod": lambda a, rec=rec: rec.__setitem__("bell", a[2]) or 0,
+                                "xpoll_fd_reg_mod": lambda a, rec=rec: rec.__setitem__("ev", a[2]) or 0,
+                                "__log_event": lambda a: 0, "log_is_enabled": lambda a: 0})
+        it.record_calls = True
+        it.opaque_decls = True
+        it.mem = {list(st)[0]: ready[0], list(co)[0]: c}
+        try:
+            it.call(g, [1])
+        except I.Unsupported as e:
+            raise Broken("C16.R3: %s cannot be folded for condition %d: %s" % (g.qname, c, e))
+        want = (EPOLLIN if c & RCV else 0) | (EPOLLOUT if c & SND else 0)
+        if rec.get("ev") != want or rec.get("bell"):
+            bad.append((c, rec.get("ev"), rec.get("bell"), want))
+    if bad:
+        c, ev, bell, want = bad[0]
+        rule.violation("%s:ready-mask" % g.name, "%s in state ready with condition %d awaited registers epoll events %s%s (must be 0x%x, bell off): %s"
+                       % (g.name, c, "none" if ev is None else "0x%x" % ev, ", bell on" if bell else "", want,
+                          "an awaited condition gets no kernel interest - the wake-up for it never comes" if (ev or 0) & want != want else
+                          "interest in something that was not awaited"), loc=g.file)
+    else:
+        rule.ok("%s: conditions 0..3 map to exactly the awaited events, bell off" % g.qname, "exact folding")
